@@ -27,4 +27,6 @@ HARNESSES = [
     H("c17_mem_reader::c17_probe_vmem_len12", desc="copy_from_process: vectored read probed first and kept", loops={"stub_process_vm_readv": 42},
       expect_unsat_covers=("a failing read exists",)),
     H("c17_mem_reader::c17_copy_len0", desc="zero-length request is an error"),
+    H("c17_mem_reader::c17_selftest_try_reserve", desc="tool self-test: try_reserve_exact + resize model", tier="thorough"),
+    H("c17_mem_reader::c17_selftest_try_reserve_in_result", desc="tool self-test 2", tier="thorough"),
 ]
